@@ -43,9 +43,14 @@ SITES = {
 DRIFT_ASPECTS = {"KfUcastEmptyPanics": "nopanic", "KfStr2LogLevelDoc": "documented"}
 
 
+def ucast_fixed():
+    """The mechanism constant follows the status of the finding in known_findings.d (fixed: the length test is there)."""
+    return any(e.get("key") == "X09:KF_IsUnicastMACEmptyPanics" and e.get("status") == "fixed" for e in vlib.load_known())
+
+
 def cfg(families, deep):
-    return ("SPECIFICATION VSpec\nCONSTANTS\n  Families = {%s}\n  Deep = %s\nINVARIANTS Lemmas VExport\nCHECK_DEADLOCK FALSE\n" %
-            (", ".join('"%s"' % f for f in families), "TRUE" if deep else "FALSE"))
+    return ("SPECIFICATION VSpec\nCONSTANTS\n  Families = {%s}\n  Deep = %s\n  UcastFixed = %s\nINVARIANTS Lemmas VExport\nCHECK_DEADLOCK FALSE\n" %
+            (", ".join('"%s"' % f for f in families), "TRUE" if deep else "FALSE", "TRUE" if ucast_fixed() else "FALSE"))
 
 
 def execute(ctx, binary, vectors, tag):
